@@ -5,6 +5,19 @@ import os
 HERE = os.path.dirname(os.path.dirname(os.path.abspath(__file__)))
 
 CLAIMED = {
+    "C20": dict(
+        level="fault_enumeration", design="DESIGN.md 3/C20",
+        text=("Sequential part: seeded histories of copying operations (construction with mutable defaults, copy-on-write "
+              "helpers, deepcopy of module-bearing values nested to depth 3, reset/del); probed operations are re-executed with an "
+              "injected exception at every callback invocation index and with an abort at library line events; after every "
+              "execution (a quiescent point) copyreg.dispatch_table must equal its pre-run snapshot, immediately and after one "
+              "more copy. Threaded part: 2-3 baton-scheduled real threads deep-copy module-bearing values under seeded schedules "
+              "(bounded pre-emptions at lines of the copy-protection code, PCT, random); every copy succeeds, modules are kept by "
+              "identity, results equal the sequential run, table restored, no deadlock."),
+        note=("Trusted: sys.settrace line granularity for aborts and pre-emptions; cooperative SimRLock in place of threading.RLock; "
+              "schedules are sampled, not enumerated."),
+        technique="deterministic simulation: line-abort and callback-fault enumeration over copying histories + seeded thread scheduler, dispatch-table invariant at quiescent points",
+    ),
     "C19": dict(
         level="exploration", design="DESIGN.md 3/C19",
         text=("Seeded schedule search: a generated lazily-bootstrapped spec class (optional spec / plain subclass, "
